@@ -163,6 +163,7 @@ struct Sim {
   uint64_t decisions = 0; // decision index (replay key)
   size_t replay_pos = 0;
   uint64_t last_progress = 0;
+  bool abort_requested = false;
   // region
   bool region = false;
   int team = 1;
@@ -270,6 +271,11 @@ int decide(bool cur_live) {
     return -1;
   int choice = dflt;
 
+  if (G.abort_requested) {
+    G.stats.aborted = true;
+    G.stats.abort_reason = "abort requested by the harness";
+    return -2;
+  }
   // liveness budget
   const uint64_t idle = G.stats.points - G.last_progress;
   if (idle > G.sched.budget) {
@@ -539,6 +545,7 @@ void run_begin(const Sched &s, Listener *l) {
   G.decisions = 0;
   G.replay_pos = 0;
   G.last_progress = 0;
+  G.abort_requested = false;
   G.region = false;
   G.team = 1;
   G.cur = 0;
@@ -584,6 +591,7 @@ void mark_progress() {
   }
 }
 void global_progress() { G.last_progress = G.stats.points; }
+void request_abort() { G.abort_requested = true; }
 void harness_yield(const void *addr) { point(addr, 0x7f); }
 int lock_holder(const void *addr) {
   auto it = G.holders.find(addr);
